@@ -82,10 +82,10 @@ def get_shape(spec):
         V = np.array(shape.mesh.vertices, dtype=float)
         F = np.array(shape.mesh.faces)
         if irot:
-            # documented meaning of initial_rotation: the primitive is rotated by (yaw, pitch,
-            # roll) and the result rescaled to unit extents about its bounding-box centre
+            # MeshShape's documented order: centre the primitive, rotate it by (yaw, pitch, roll),
+            # then scale each axis to unit extent (no re-centring: a tilted cone is off-centre)
             V0 = np.array(cls().mesh.vertices, dtype=float) @ geo.rot(*irot).T
-            V0 = (V0 - (V0.min(axis=0) + V0.max(axis=0)) / 2) / (V0.max(axis=0) - V0.min(axis=0))
+            V0 = V0 / (V0.max(axis=0) - V0.min(axis=0))
             if V0.shape != V.shape or np.abs(V0 - V).max() > 1e-9:
                 raise core.HarnessError("initial_rotation: unit mesh is not the rotated, rescaled primitive")
         solid = geo.Solid.convex_from_mesh(V, F)
@@ -615,13 +615,16 @@ def pair_cases(draw):
         # small body inside a part / a concavity of a non-convex or multi-body solid: the
         # configurations that the surface-collision passes cannot decide
         A["shape"] = draw(polycubes(draw(st.sampled_from(["nonconvex", "multi"]))))
-    elif draw(st.integers(0, 11)) == 0:
+    elif draw(st.integers(0, 7)) == 0:
         # both planar boxes: the 2D fast path
         for o in (A, B):
             o["shape"] = {"k": "box"}
             o["ypr"] = [o["ypr"][0], 0.0, 0.0]
             o.pop("parent", None)
-        if draw(st.integers(0, 3)) == 0:
+        if draw(st.integers(0, 1)) == 0:
+            # mostly sideways: upright boxes next to each other rather than stacked
+            pl["u"] = [pl["u"][0], draw(U(-0.3, 0.3))]
+        if draw(st.integers(0, 1)) == 0:
             A["shape"] = {"k": "box", "irot": [round(draw(W([math.pi / 4, draw(ANG)])), 6), 0.0, 0.0]}
     return {"mode": "pair", "A": A, "posA": draw(POS), "B": B, "place": pl,
             "twin": draw(st.integers(0, 2)) == 0, "motion": draw(motions())}
